@@ -38,6 +38,7 @@ ReservedApciBits(svc, long) ==
 ReserialiseOk(c) ==
   \/ c.out = "refused"            \* the encoder refuses what the decoder let through: no claim (the APDU layer is C04 / C05)
   \/ /\ c.out = "ok" /\ c.lendiff = 0
+     /\ c.ft2 = (IF c.npdu <= 15 THEN 1 ELSE 0)          \* the frame type bit written is derived from the NPDU length
      /\ \A i \in 1..Len(c.diff) :
            LET o == c.diff[i][1]  p == c.diff[i][2] IN
            \/ (o = c.ctrl1 /\ p \in {7, 6})                  \* the derived frame type bit and the reserved bit of control field 1
